@@ -933,6 +933,9 @@ def scenarios(draw, prof=None):
     if draw(st.floats(0, 1)) < prof.get("print_progress", 0.04):
         case["print_progress"] = True       # solve's own progress table (stdout is swallowed by the harness)
         case["tags"].append("print-progress")
+    if prof.get("nolog") and draw(st.floats(0, 1)) < prof["nolog"]:
+        case["do_logging"] = False          # only in checks whose oracles do not read the dfols log (C01, C04, C19, C20, C07 omnibus)
+        case["tags"].append("no-logging")
     if prof.get("proj") and n >= 2 and draw(st.floats(0, 1)) < prof["proj"]:
         draw(attach_projections(case))
     return case
